@@ -122,9 +122,12 @@ def sh_int(val=0, base=10):
             raise Unsupported('int(rope, base=%r)' % base)
         if val.kind != 't':
             raise Unsupported('int() of abstract bytes')
-        ps = val.pieces
-        if len(ps) == 1 and isinstance(ps[0], Num) and not ps[0].chain:
-            return ps[0].n
+        at = rope.whole_atom(val)
+        if isinstance(at, Num) and not at.chain:
+            return at.n
+        ps = rope.nonempty_pieces(val)
+        if len(ps) == 0:
+            raise ValueError("invalid literal for int() with base 10: ''")
         if len(ps) == 1 and isinstance(ps[0], Opq):
             p = ps[0]
             return nondet_int_of_text(_derived(p), p.lo, p.hi, p.length())
@@ -357,11 +360,12 @@ class StructStub:
         n = data.length()
         if not (s_eq(n, 4)):
             raise _struct.error('unpack requires a buffer of 4 bytes')
-        ps = [p for p in data.pieces if not (isinstance(p.length(), int) and p.length() == 0)]
-        if builtins.len(ps) == 1 and isinstance(ps[0], U32):
-            if ps[0].fmt == fmt or {ps[0].fmt, fmt} <= {'>I', '!I'}:
-                return ps[0].n
+        at = rope.whole_atom(data)
+        if isinstance(at, U32):
+            if at.fmt == fmt or {at.fmt, fmt} <= {'>I', '!I'}:
+                return at.n
             raise Unsupported('u32 unpacked with a different byte order')
+        ps = rope.nonempty_pieces(data)
         if all(isinstance(p, Opq) and not p.chain for p in ps):
             # arbitrary file content: a fresh 32-bit value, memoised per position
             p = ps[0]
@@ -575,10 +579,10 @@ class DateTimeLike(metaclass=_DTMeta):
     @staticmethod
     def strptime(text, fmt):
         if isinstance(text, Rope):
-            ps = text.pieces
-            if builtins.len(ps) == 1 and isinstance(ps[0], Tok) and not ps[0].chain:
-                if ps[0].fmt == fmt:
-                    return ps[0].d
+            at = rope.whole_atom(text)
+            if isinstance(at, Tok) and not at.chain:
+                if at.fmt == fmt:
+                    return at.d
                 raise ValueError('time data does not match format [abstract token, other format]')
             # abstract text: nondeterministic -- ValueError or some opaque datetime
             ex = core.cur()
